@@ -462,7 +462,11 @@ func (pp *proportionPlugin) allocateHandlerFn(ssn *framework.Session) func(event
 			}
 		}
 
-		leafQueue := pp.queues[job.Queue]
+		leafQueue, found := pp.queues[job.Queue]
+		if !found {
+			// the job's queue is not in the session (deleted, or dropped from the snapshot): nothing was charged
+			return
+		}
 		log.InfraLogger.V(7).Infof("Proportion AllocateFunc: job <%v/%v>, task resources <%s>, "+
 			"queue: <%v>, queue allocated resources: <%v>",
 			job.Namespace, job.Name, taskResources, leafQueue.Name, leafQueue.GetAllocatedShare())
@@ -486,7 +490,11 @@ func (pp *proportionPlugin) deallocateHandlerFn(ssn *framework.Session) func(eve
 			}
 		}
 
-		leafQueue := pp.queues[job.Queue]
+		leafQueue, found := pp.queues[job.Queue]
+		if !found {
+			// the job's queue is not in the session (deleted, or dropped from the snapshot): nothing was charged
+			return
+		}
 		log.InfraLogger.V(7).Infof("Proportion DeallocateFunc: job <%v/%v>, task resources <%s>, "+
 			"queue: <%v>, queue allocated resources: <%v>",
 			job.Namespace, job.Name, taskResources, leafQueue.Name, leafQueue.GetAllocatedShare())
